@@ -62,7 +62,8 @@ def arg_tuples(cls, name, H, rng):
         "remove_edge": [((e0,), {})],
         "remove_edges_from": [(([e0, e1],), {})],
         "add_node_to_edge": [((e0, 77, "in"), {}) if directed else ((e0, 77), {}), (("brandnew", 0, "out"), {}) if directed else (("brandnew", 0), {})],
-        "remove_node_from_edge": [((e0, 0, "out"), {}), ((e0, 2, "in"), {})] if directed else [((e0, 0), {})],
+        # directed fixture: edge e0 = ([0, 1] -> [2]); direction "in" names the tail side, "out" the head side
+        "remove_node_from_edge": [((e0, 0, "in"), {}), ((e0, 2, "out"), {})] if directed else [((e0, 0), {})],
         "clear": [((), {})],
         "clear_edges": [((), {})],
         "double_edge_swap": [((1, 4, 0, 2), {}), ((0, 3, 0, 1), {})],
@@ -82,8 +83,16 @@ def arg_tuples(cls, name, H, rng):
     }
     if name in T:
         return T[name]
-    # generic fallback for methods this table does not know (new mutators are probed too)
-    return [((), {}), ((n0,), {}), ((e0,), {}), ((e0, n0), {}), (([n0, n1],), {}), (([[n0, 77]],), {})]
+    # generic fallback for methods this table does not know (new mutators are probed too): argument tuples of arity 0..3
+    # over small pools of existing / new nodes and edges, lists and pairs of them
+    import itertools as _it
+    pool = [n0, n1, 77, e0, e1, "brandnew", [n0, n1], [n0, 77], [[n0, 77]], ([7, 8], [n0]), {"zz": [n0, n1]}, True, "in", "out"]
+    out = [((), {})]
+    for ar in (1, 2, 3):
+        combos = list(_it.product(pool, repeat=ar))
+        rng.shuffle(combos)
+        out += [(c, {}) for c in combos[: {1: 14, 2: 40, 3: 40}[ar]]]
+    return out
 
 
 LIB_INPLACE = {
@@ -114,6 +123,8 @@ def call_quiet(f, *a, **k):
 
 def probe(ctx):
     rng = ctx.rng
+    import random as _random
+    _random.seed(ctx.seed)          # methods under probe draw from the global generator (random_edge_shuffle)
     mutators = {}
     for cls in (xgi.Hypergraph, xgi.DiHypergraph, xgi.SimplicialComplex):
         cname = cls.__name__
@@ -246,6 +257,17 @@ def probe(ctx):
                                   detail=f"xgi.{fname}(…, create_using=<frozen {cname}>) raised {type(excB).__name__ if excB else 'nothing'} instead of XGIError")
                 break
     ctx.extra["structural_mutators_found_by_probing"] = mutators
+    from ..c18_translate import extract as _extract
+    tab = _extract()
+    blind = {}
+    for key, cname in (("hypergraph", "Hypergraph"), ("dihypergraph", "DiHypergraph"), ("simplicialcomplex", "SimplicialComplex")):
+        miss = [m for m in tab[key]["frozen"] if m not in mutators.get(cname, [])]
+        if miss:
+            blind[cname] = miss
+    # names that freeze() disables but that the probe never saw changing structure on the unfrozen fixture: the probe could
+    # not notice if they were dropped from the freeze list (reported, so that the argument table gets fixed)
+    ctx.extra["freeze_listed_but_never_observed_mutating"] = blind
+    ctx.stats["probe_blind_names"] = sum(len(v) for v in blind.values())
     return mutators
 
 
